@@ -1200,46 +1200,73 @@ func ruleB2(c *Ctx, id string) {
 			R.Check(ok, id, FuncName(ownerOf(fn))+"|"+h+": handle and attributes of one object", P.Pos(o.pos), "the handle returned and the attributes returned with it are taken from the same inode", "one inode object", why+": the client caches attributes (type, size, file id) under a handle they do not belong to")
 		}
 	}
-	// READLINK returns the whole target: the count that reaches Inode.Read for a symbolic link is the link's size
-	// (SYMLINK accepts targets up to wtmax; a bound on the way - rtmax, a page - cuts the target short with status OK)
-	if rl := P.Func("nfs.(*Nfs).NFSPROC3_READLINK"); rl != nil {
+	// how much is read: the request's count for a file, the link's size for a symbolic link - nothing else.
+	// READLINK returns the whole target (SYMLINK accepts targets up to wtmax; a bound on the way - rtmax, a page -
+	// cuts the target short with status OK); a READ returns at most what was asked for (a count replaced by the
+	// object's size outside the symbolic-link arm - "0 means everything" - returns bytes nobody asked for, unbounded)
+	{
+		lnk := constOfPkg(P, "nfstypes", "NF3LNK")
 		nR := 0
-		for _, sc := range scopesOf(rl) {
-			for _, ci := range P.CallsIn(sc.Fn, funcIs(V.InodeRead)) {
+		for _, fn := range P.RepoFuncs("nfs") {
+			if fn.Blocks == nil {
+				continue
+			}
+			for _, ci := range P.CallsIn(fn, funcIs(V.InodeRead)) {
 				as := fullArgs(ci)
 				if len(as) < 4 {
 					continue
 				}
 				nR++
-				recv := sc.S.resolve(stripConv(as[0]))
+				R.Analysed[FuncName(fn)] = true
+				recv := stripConv(as[0])
 				ok, why := true, ""
 				seen := map[ssa.Value]bool{}
-				var leaf func(v ssa.Value)
-				leaf = func(v ssa.Value) {
-					v = sc.S.resolve(stripConv(v))
+				var leaf func(v ssa.Value, at *ssa.BasicBlock)
+				leaf = func(v ssa.Value, at *ssa.BasicBlock) {
+					v = stripConv(v)
 					if seen[v] {
 						return
 					}
 					seen[v] = true
-					if ph, isP := v.(*ssa.Phi); isP {
-						for _, e := range ph.Edges {
-							leaf(e)
+					switch x := v.(type) {
+					case *ssa.Phi:
+						for i, e := range x.Edges {
+							leaf(e, x.Block().Preds[i])
+						}
+						return
+					case *ssa.Parameter, *ssa.Const:
+						return // the request's count (bounded by C19.M6), or the caller's placeholder
+					}
+					if n, fl, base, isElem := loadedField(v); !isElem && n == V.Inode && fl == "Size" && stripConv(base) == recv {
+						g := guardedBy(fn, at, func(cd Cond) (bool, bool) {
+							if cd.Y == nil {
+								return false, false
+							}
+							n2, f2, b2, _ := loadedField(cd.X)
+							k, isk := constInt(stripConv(cd.Y))
+							if n2 != V.Inode || f2 != "Kind" || stripConv(b2) != recv || !isk || k != lnk {
+								return false, false
+							}
+							switch cd.Op {
+							case token.EQL:
+								return true, true
+							case token.NEQ:
+								return true, false
+							}
+							return false, false
+						})
+						if !g {
+							ok, why = false, "the object's size on a path that is not confined to symbolic links"
 						}
 						return
 					}
-					if k, isk := constInt(v); isk && k == 0 {
-						return // the handler's own placeholder: replaced on the symlink path
-					}
-					if n, fl, base, isElem := loadedField(v); !isElem && n == V.Inode && fl == "Size" && sc.S.resolve(stripConv(base)) == recv {
-						return
-					}
-					ok, why = false, symOf(sc.Fn, v)
+					ok, why = false, symOf(fn, v)
 				}
-				leaf(as[3])
-				R.Check(ok, id, "NFSPROC3_READLINK|reads the whole target", P.Pos(ci.Pos()), "the count handed to Inode.Read for a symbolic link is the link's size", "Inode.Size of the link", "the count is "+why+": a target longer than that bound is returned cut short, with status OK")
+				leaf(as[3], ci.Block())
+				R.Check(ok, id, FuncName(ownerOf(fn))+"|reads what was asked for, a link in full", P.Pos(ci.Pos()), "the count handed to Inode.Read is the caller's count, or - on the Kind == NF3LNK side only - the link's size", "request count / link size", "the count is "+why+": a link target is returned cut short with status OK, or a READ returns more than the count it was given")
 			}
 		}
-		R.Check(nR > 0, id, "NFSPROC3_READLINK|reads through Inode.Read", P.Pos(rl.Pos()), "READLINK reads the target with Inode.Read", fmt.Sprintf("%d reads", nR), "no Inode.Read reachable in READLINK's own code")
+		R.Check(nR > 0, id, "inventory|reads of file content in the handlers", "?", "the handlers read through Inode.Read", fmt.Sprintf("%d reads", nR), "no Inode.Read call in package nfs")
 	}
 	R.Check(nT >= 7, id, "inventory|reply fields with a source", "?", "the data-bearing reply fields are found", fmt.Sprintf("%d sites", nT), fmt.Sprintf("only %d of the expected reply-field sites found", nT))
 }
